@@ -76,6 +76,20 @@ def shapes(src, cm=None):
         return starts[line - 1] + len(lines[line - 1].encode("utf-8")[:col].decode("utf-8", "ignore"))
     calls = [n for n in ast.walk(tree) if isinstance(n, ast.Call) and not (isinstance(n.func, ast.Name) and n.func.id.startswith("vf_"))]
     if not calls: return out
+    # a dict-literal argument that also unpacks a mapping: f(options={"k": v, **vf_star_dict}) - the entry must survive whatever happens to the keys next to it
+    dict_edits = []
+    for n in calls:
+        for d in [a for a in list(n.args) + [k.value for k in n.keywords] if isinstance(a, ast.Dict) and a.keys and all(k is not None for k in a.keys)]:
+            close = off(d.end_lineno, d.end_col_offset) - 1
+            if src[close] != "}": continue
+            j = close - 1
+            while j >= 0 and src[j] in " \t\r\n": j -= 1
+            dict_edits.append((j + 1, (" " if src[j] == "," else ", ") + "**vf_star_dict"))
+    if dict_edits:
+        new = src
+        for pos, ins in sorted(dict_edits, reverse=True): new = new[:pos] + ins + new[pos:]
+        try: compile(new, "<shape>", "exec"); out.append(("dict-argument-unpacking", new))
+        except SyntaxError: pass
     for label, extra in local_shapes.items():
         edits = []
         for n in calls:
